@@ -198,7 +198,10 @@ class Ctx:
             self.violated(api, f"step-budget:{e}", case, {"error": str(e)})
             return False, None
         except RecursionError:
-            self.skip(api, "recursion-limit")
+            if getattr(self, "recursion_is_violation", False):
+                self.violated(api, f"{mech_prefix or api}/exception:RecursionError", case, {"error": "RecursionError under the default recursion limit"})
+            else:
+                self.skip(api, "recursion-limit")
             return False, None
         except MemoryError:
             self.skip(api, "memory")
